@@ -443,6 +443,193 @@ fn cancel(rep: &mut Report) {
     });
 }
 
+// ------------------------------------------------------------------------------------------------ backlog
+/// long queued backlogs (longer than any script of the step-by-step correspondence) in front of a stop(), a drop
+/// of the last reference or a failing on_run, with every kind of on_run: all of it is handled, in order, then
+/// on_stop(killed=false) runs once and the JoinHandle resolves
+struct Bk {
+    log: Arc<Mutex<Vec<String>>>,
+    mode: &'static str,
+    handled: u32,
+    fail_at: u32,
+    quiet: Arc<tokio::sync::Notify>,
+}
+impl Actor for Bk {
+    type Args = (Arc<Mutex<Vec<String>>>, &'static str, u32);
+    type Error = String;
+    async fn on_start(a: Self::Args, _: &ActorRef<Self>) -> Result<Self, String> {
+        Ok(Bk { log: a.0, mode: a.1, handled: 0, fail_at: a.2, quiet: Arc::new(tokio::sync::Notify::new()) })
+    }
+    async fn on_run(&mut self, _: &ActorWeak<Self>) -> Result<bool, String> {
+        match self.mode {
+            "default" => Ok(false),
+            // waits for an event that never comes (cancel-safe; restarted whenever a message wins the select)
+            "parked" => {
+                self.quiet.notified().await;
+                Ok(true)
+            }
+            "ticking" => {
+                tokio::task::yield_now().await;
+                Ok(true)
+            }
+            // parked until `fail_at` messages have been handled, then fails at once
+            _ => {
+                if self.handled >= self.fail_at {
+                    self.log.lock().unwrap().push("run err".into());
+                    return Err("scripted on_run error".into());
+                }
+                self.quiet.notified().await;
+                Ok(true)
+            }
+        }
+    }
+    async fn on_stop(&mut self, _: &ActorWeak<Self>, killed: bool) -> Result<(), String> {
+        self.log.lock().unwrap().push(format!("stop {killed}"));
+        Ok(())
+    }
+}
+impl Message<Item> for Bk {
+    type Reply = u32;
+    async fn handle(&mut self, m: Item, _: &ActorRef<Self>) -> u32 {
+        self.handled += 1;
+        self.log.lock().unwrap().push(format!("h {}", m.0));
+        m.0
+    }
+}
+
+fn backlog(rep: &mut Report) {
+    let rt = tokio::runtime::Builder::new_current_thread().enable_time().build().unwrap();
+    let mut cases = 0u64;
+    rt.block_on(async {
+        for mode in ["default", "parked", "ticking", "failing"] {
+            for n in [1u32, 15, 16, 17, 32, 63, 64, 65, 100, 200] {
+                for end in ["stop", "drop"] {
+                    if mode == "failing" && end == "drop" {
+                        continue;
+                    }
+                    cases += 1;
+                    note(format!("backlog: on_run {mode}, {n} tells queued before the actor runs, then {end}"));
+                    let log = Arc::new(Mutex::new(vec![]));
+                    let (r, jh) = spawn_with_mailbox_capacity::<Bk>((log.clone(), mode, n), n as usize + 1);
+                    // queued back to back: the actor's task has not run yet (current-thread runtime, no yield so far)
+                    let mut sent = true;
+                    for k in 0..n {
+                        sent &= r.tell(Item(k)).await.is_ok();
+                    }
+                    let mut keep = Some(r);
+                    let stopped = match (mode, end) {
+                        // the failing on_run ends the actor by itself; the reference stays alive meanwhile
+                        ("failing", _) => true,
+                        (_, "stop") => matches!(tokio::time::timeout(Duration::from_secs(5), keep.as_ref().unwrap().stop()).await, Ok(Ok(()))),
+                        _ => {
+                            keep = None;
+                            true
+                        }
+                    };
+                    let res = tokio::time::timeout(Duration::from_secs(5), jh).await;
+                    drop(keep);
+                    let l = log.lock().unwrap().clone();
+                    let handled: Vec<u32> = l.iter().filter_map(|x| x.strip_prefix("h ").and_then(|v| v.parse().ok())).collect();
+                    let stops = l.iter().filter(|x| x.starts_with("stop")).count();
+                    let what = format!("backlog(on_run {mode}, {n} queued tells, then {end})");
+                    if !sent || !stopped {
+                        rep.v("C09 C02", format!("{what}: a tell into a mailbox with room, or stop(), failed"));
+                    }
+                    match res {
+                        Ok(Ok(out)) => {
+                            if handled != (0..n).collect::<Vec<_>>() {
+                                rep.v("C01 C02", format!("{what}: the {n} accepted messages must all be handled, in order, before the actor ends; handled {} of them: {:?}…", handled.len(), &handled[..handled.len().min(8)]));
+                            }
+                            if stops != 1 || !l.iter().any(|x| x == "stop false") {
+                                rep.v("C04 C08 C07", format!("{what}: on_stop(killed=false) must run exactly once; log tail {:?}", &l[l.len().saturating_sub(4)..]));
+                            }
+                            if mode == "failing" {
+                                if !out.is_runtime_failed() || out.was_killed() {
+                                    rep.v("C08 C05", format!("{what}: on_run returned Err after the backlog: the result must be an on_run failure, not killed"));
+                                }
+                                if l.iter().position(|x| x == "run err").map_or(true, |p| l.iter().position(|x| x.starts_with("stop")).map_or(true, |q| q < p)) {
+                                    rep.v("C04 C08", format!("{what}: on_stop must follow the failing on_run pass; log tail {:?}", &l[l.len().saturating_sub(4)..]));
+                                }
+                            } else if !out.is_completed() || out.was_killed() {
+                                rep.v("C05 C07", format!("{what}: the actor must end as completed, not killed"));
+                            }
+                        }
+                        _ => rep.v("C07 C01 C03", format!("{what}: the actor did not end within 5 s (handled {} of {n}; log tail {:?})", handled.len(), &l[l.len().saturating_sub(3)..])),
+                    }
+                }
+            }
+        }
+        rep.s("backlog", format!("cases={cases}"));
+    });
+}
+
+// ------------------------------------------------------------------------------------------------ erased blocking calls
+/// the blocking operations through Box<dyn TellHandler> / Box<dyn AskHandler> against the same call on the ActorRef,
+/// over a table of timeouts (None, zero, short, long) and actor states (idle, busy, full mailbox, ended)
+fn erasedblk(rep: &mut Report) {
+    let rt = tokio::runtime::Builder::new_multi_thread().worker_threads(2).enable_time().build().unwrap();
+    let mut cases = 0u64;
+    let class = |r: &Result<Option<u32>, rsactor::Error>| match r {
+        Ok(Some(v)) => format!("Ok({v})"),
+        Ok(None) => "Ok".to_string(),
+        Err(rsactor::Error::Timeout { .. }) => "Timeout".to_string(),
+        Err(rsactor::Error::Send { .. }) => "Send".to_string(),
+        Err(rsactor::Error::Receive { .. }) => "Receive".to_string(),
+        Err(_) => "other".to_string(),
+    };
+    for state in ["idle", "busy", "full", "ended"] {
+        for (tname, tmo) in [("None", None), ("Some(0)", Some(Duration::ZERO)), ("Some(40 ms)", Some(Duration::from_millis(40))), ("Some(2 s)", Some(Duration::from_secs(2)))] {
+            for op in ["tell", "ask"] {
+                // outcomes that depend on a race between the reply and a zero deadline are not compared
+                if state == "idle" && tname == "Some(0)" {
+                    continue;
+                }
+                let mut got = vec![];
+                for erased in [false, true] {
+                    let log = Arc::new(Mutex::new(vec![]));
+                    let slow = if state == "idle" || state == "ended" { 0 } else { 200 };
+                    let cap = if state == "full" { 1 } else { 8 };
+                    let (r, jh) = rt.block_on(async { spawn_with_mailbox_capacity::<B>((log.clone(), slow), cap) });
+                    match state {
+                        "busy" => {
+                            r.blocking_tell(W(1), None).unwrap();
+                            std::thread::sleep(Duration::from_millis(20));
+                        }
+                        "full" => {
+                            r.blocking_tell(W(1), None).unwrap();
+                            std::thread::sleep(Duration::from_millis(20));
+                            r.blocking_tell(W(2), None).unwrap();
+                        }
+                        "ended" => {
+                            let _ = r.kill();
+                            rt.block_on(async { let _ = tokio::time::timeout(Duration::from_secs(5), jh).await; });
+                        }
+                        _ => {}
+                    }
+                    let th: Box<dyn rsactor::TellHandler<W>> = Box::new(r.clone());
+                    let ah: Box<dyn rsactor::AskHandler<W, u32>> = Box::new(r.clone());
+                    let t0 = Instant::now();
+                    let res: Result<Option<u32>, rsactor::Error> = match (op, erased) {
+                        ("tell", false) => r.blocking_tell(W(9), tmo).map(|_| None),
+                        ("tell", true) => th.blocking_tell(W(9), tmo).map(|_| None),
+                        (_, false) => r.blocking_ask(W(9), tmo).map(Some),
+                        _ => ah.blocking_ask(W(9), tmo).map(Some),
+                    };
+                    let el = t0.elapsed();
+                    cases += 1;
+                    got.push((class(&res), el));
+                    let _ = r.kill();
+                }
+                if got[0].0 != got[1].0 {
+                    rep.v("C16 C17", format!("blocking_{op}(.., {tname}) on an actor that is {state}: the ActorRef returns {} (after {:?}), the same call through a Box<dyn {}Handler> returns {} (after {:?})",
+                        got[0].0, got[0].1, if op == "tell" { "Tell" } else { "Ask" }, got[1].0, got[1].1));
+                }
+            }
+        }
+    }
+    rep.s("erasedblk", format!("cases={cases}"));
+}
+
 // ------------------------------------------------------------------------------------------------ late completion (real time)
 struct G {
     log: Arc<Mutex<Vec<u32>>>,
@@ -609,6 +796,9 @@ impl Actor for B {
     }
 }
 struct W(u32);
+/// values handed to `on_tell_result` (the hook has no access to the actor): every tell-family operation, blocking
+/// ones included, hands its handler's return value to it exactly once; ask-family operations never do
+static TELL_RESULTS: Mutex<Vec<u32>> = Mutex::new(Vec::new());
 impl Message<W> for B {
     type Reply = u32;
     async fn handle(&mut self, m: W, _: &ActorRef<Self>) -> u32 {
@@ -617,6 +807,9 @@ impl Message<W> for B {
         }
         self.log.lock().unwrap().push(m.0);
         m.0
+    }
+    fn on_tell_result(result: &u32, _: &ActorRef<Self>) {
+        TELL_RESULTS.lock().unwrap().push(*result);
     }
 }
 
@@ -644,6 +837,7 @@ fn blocking(rep: &mut Report) {
     // (a) live actor, N plain threads, mixed blocking ops: delivery, per-thread order, reply integrity
     for nthreads in [1u32, 4, 16] {
         note(format!("blocking (a): {nthreads} plain thread(s) issuing the six blocking forms against a live actor"));
+        TELL_RESULTS.lock().unwrap().clear();
         let log = Arc::new(Mutex::new(vec![]));
         let (r, jh) = rt.block_on(async { spawn_with_mailbox_capacity::<B>((log.clone(), 0), 4) });
         let mut ths = vec![];
@@ -676,6 +870,14 @@ fn blocking(rep: &mut Report) {
             let _ = tokio::time::timeout(Duration::from_secs(10), jh).await;
         });
         let handled = log.lock().unwrap().clone();
+        let told = TELL_RESULTS.lock().unwrap().clone();
+        for (id, res) in &all {
+            let is_tell = (id % 1000) % 2 == 0;
+            let n = told.iter().filter(|x| *x == id).count();
+            if res.is_ok() && n != usize::from(is_tell) {
+                rep.v("C17 C19", format!("blocking {} {id} (form {} of: blocking_tell None, blocking_ask None, blocking_tell Some, blocking_ask Some, tell_blocking, ask_blocking) was handled and returned Ok; on_tell_result was invoked {n} time(s) with its value (after a tell exactly once, after an ask never)", if is_tell { "tell" } else { "ask" }, (id % 1000) % 6));
+            }
+        }
         for (id, res) in &all {
             match res {
                 Ok(Some(v)) if v != id => rep.v("C17 C03", format!("blocking_ask {id} returned the reply {v}")),
@@ -943,6 +1145,63 @@ fn blocking(rep: &mut Report) {
             rep.v("C17 C03", format!("blocking_tell parked on a full mailbox of an actor that is then killed: expected Err(Send), got {res:?}"));
         } else if delta != 1 {
             rep.v("C17 C13", format!("blocking_tell parked on a full mailbox returned Err(Send) when the actor was killed, but {delta} dead letter(s) were recorded for it (exactly one, as for tell)"));
+        }
+    }
+    // (b9) the deprecated aliases ignore their timeout argument: they wait like blocking_tell / blocking_ask(.., None)
+    {
+        note("blocking (b9): tell_blocking / ask_blocking given Some(30 ms) against a full mailbox / a slow handler (the aliases ignore the timeout)".into());
+        let log = Arc::new(Mutex::new(vec![]));
+        let (r, _jh) = rt.block_on(async { spawn_with_mailbox_capacity::<B>((log.clone(), 250), 1) });
+        r.blocking_tell(W(1), None).unwrap(); // in the handler for 250 ms
+        std::thread::sleep(Duration::from_millis(20));
+        r.blocking_tell(W(2), None).unwrap(); // fills the only slot
+        let t0 = Instant::now();
+        #[allow(deprecated)]
+        let a = r.tell_blocking(W(3), Some(Duration::from_millis(30)));
+        let ta = t0.elapsed();
+        let t1 = Instant::now();
+        #[allow(deprecated)]
+        let b = r.ask_blocking(W(4), Some(Duration::from_millis(30)));
+        let tb = t1.elapsed();
+        calls += 2;
+        if !matches!(a, Ok(())) {
+            rep.v("C17", format!("tell_blocking(.., Some(30 ms)) against a mailbox that stays full for ~230 ms returned {a:?} after {ta:?}: the deprecated alias ignores its timeout argument and waits for the slot"));
+        }
+        if !matches!(b, Ok(4)) {
+            rep.v("C17", format!("ask_blocking(.., Some(30 ms)) behind handlers of 250 ms returned {b:?} after {tb:?}: the deprecated alias ignores its timeout argument and waits for the reply"));
+        }
+        let _ = r.kill();
+    }
+    // (b10) a blocking call that timed out is over: whatever happens to the actor afterwards, the one operation has
+    //       recorded its one dead letter (Timeout) and records nothing else
+    {
+        note("blocking (b10): blocking_ask / blocking_tell(.., Some(40 ms)) time out behind a busy handler, then the actor is killed".into());
+        harness::log::install();
+        for kind in ["ask", "tell"] {
+            let log = Arc::new(Mutex::new(vec![]));
+            let (r, jh) = rt.block_on(async { spawn_with_mailbox_capacity::<B>((log.clone(), 300), 1) });
+            r.blocking_tell(W(1), None).unwrap(); // in the handler for 300 ms
+            std::thread::sleep(Duration::from_millis(20));
+            if kind == "tell" {
+                r.blocking_tell(W(2), None).unwrap(); // fills the only slot
+            }
+            let before = harness::log::DEAD_LETTER_EVENTS.load(SeqCst);
+            let res = if kind == "ask" {
+                r.blocking_ask(W(5), Some(Duration::from_millis(40))).map(|_| ())
+            } else {
+                r.blocking_tell(W(5), Some(Duration::from_millis(40)))
+            };
+            calls += 1;
+            let _ = r.kill();
+            rt.block_on(async { let _ = tokio::time::timeout(Duration::from_secs(10), jh).await; });
+            drop(r);
+            std::thread::sleep(Duration::from_millis(150)); // anything the call left behind has had time to finish
+            let delta = harness::log::DEAD_LETTER_EVENTS.load(SeqCst) - before;
+            if !matches!(res, Err(rsactor::Error::Timeout { .. })) {
+                rep.v("C17 C10", format!("blocking_{kind}(.., Some(40 ms)) behind a 300 ms handler returned {res:?} (expected Err(Timeout))"));
+            } else if delta != 1 {
+                rep.v("C17 C13", format!("blocking_{kind}(.., Some(40 ms)) returned Err(Timeout) and the actor was killed afterwards: {delta} dead letters were recorded for that one failed operation (exactly one, reason timeout)"));
+            }
         }
     }
     // (b8) what a blocking_tell with a timeout returns agrees with what happened to the message, also when the
@@ -1409,7 +1668,7 @@ fn lazyfut(rep: &mut Report) {
                             cells += 1;
                             for v in 1..3 {
                                 if outs[v] != outs[0] {
-                                    rep.v("C16", format!(
+                                    rep.v(if op.ends_with('t') { "C16 C10" } else { "C16" }, format!(
                                         "{op} (timeout {timeout} ms) created, first polled {delay} ms later, actor busy {busy} ms, mailbox {}: direct ActorRef gives (result {}, {} ms, handled {:?}) but the {} trait object gives (result {}, {} ms, handled {:?})",
                                         if fill { "full" } else { "free" }, outs[0].0, outs[0].1, outs[0].2,
                                         if v == 1 { "From<&ActorRef>" } else { "clone_boxed" }, outs[v].0, outs[v].1, outs[v].2));
@@ -1563,6 +1822,8 @@ fn main() {
             "askjoin" => ("C03", 180),
             "late" => ("C01 C10", 360),
             "cancel" => ("C02 C01 C09 C07", 240),
+            "backlog" => ("C01 C02 C04 C07 C08", 600),
+            "erasedblk" => ("C16 C17", 600),
             "blocking" => ("C17 C10 C03", 720),
             "ids" => ("C11", 120),
             "idlewin" => ("C08 C03", 900),
@@ -1578,7 +1839,7 @@ fn main() {
             // scenarios that measure wall-clock deadlines are repeated when they complain: a defect in the crate
             // fails every time, a stall of this machine does not (a violation is reported only if three
             // consecutive fresh runs of the scenario all produce one)
-            let attempts = if matches!(name.as_str(), "late" | "blocking") { 3 } else { 1 };
+            let attempts = if matches!(name.as_str(), "late" | "blocking" | "erasedblk") { 3 } else { 1 };
             for attempt in 1..=attempts {
                 r = Report::default();
                 match name.as_str() {
@@ -1586,6 +1847,8 @@ fn main() {
                     "askjoin" => askjoin(&mut r),
                     "late" => late(&mut r),
                     "cancel" => cancel(&mut r),
+                    "backlog" => backlog(&mut r),
+                    "erasedblk" => erasedblk(&mut r),
                     "blocking" => blocking(&mut r),
                     "ids" => ids(&mut r),
                     "idlewin" => idlewin(&mut r),
